@@ -295,6 +295,10 @@ func c04Events(thorough bool) []c04Ev {
 			evs = append(evs, c04Ev{Kind: "req", D: d, Method: m}, c04Ev{Kind: "req", D: d, Method: m, Swap: true})
 		}
 	}
+	// "whatever its method": methods that usually travel outside dialogs, and an extension token
+	for _, m := range []string{"OPTIONS", "MESSAGE", "REFER", "PUBLISH", "X-CUSTOM"} {
+		evs = append(evs, c04Ev{Kind: "req", D: 0, Method: m}, c04Ev{Kind: "req", D: 1, Method: m, Swap: true})
+	}
 	evs = append(evs, c04Ev{Kind: "sub"}, c04Ev{Kind: "subresp"}, c04Ev{Kind: "notify-sub"}, c04Ev{Kind: "notify-sub", Method: "SUBSCRIBE"})
 	return evs
 }
@@ -342,7 +346,7 @@ func c04Run(c *Ctx) {
 
 func init() {
 	addCheck(&Check{ID: "C04", Level: "model_checking",
-		Rule:   "explicit-state BFS by replay over histories (depth 6, thorough 8) of two INVITE dialogs plus one backend-issued SUBSCRIBE dialog over three backends: events {unrelated OPTIONS, initial INVITE d, 180(with Expires)/200/486 with to-tag from the chosen backend's configured address, in-dialog ACK/BYE/INFO/UPDATE/re-INVITE/NOTIFY/refresh SUBSCRIBE/PRACK in both directions (From/To swapped), SUBSCRIBE issued by a backend, its 200 from the peer, NOTIFY / refresh SUBSCRIBE of that dialog}; four identifier flavours (plain, tags with '-' and equal From/To URIs with decorations, tel:/urn: parties, TCP backends); state = reference pins + per-dialog progress + dialog table (dialog entries) + rotation cursor; non-trivial = history longer than two events",
+		Rule:   "explicit-state BFS by replay over histories (depth 6, thorough 8) of two INVITE dialogs plus one backend-issued SUBSCRIBE dialog over three backends: events {unrelated OPTIONS, initial INVITE d, 180(with Expires)/200/486 with to-tag from the chosen backend's configured address, in-dialog ACK/BYE/INFO/UPDATE/re-INVITE/NOTIFY/refresh SUBSCRIBE/PRACK in both directions (From/To swapped) and OPTIONS/MESSAGE/REFER/PUBLISH/an extension method in one direction per dialog, SUBSCRIBE issued by a backend, its 200 from the peer, NOTIFY / refresh SUBSCRIBE of that dialog}; four identifier flavours (plain, tags with '-' and equal From/To URIs with decorations, tel:/urn: parties, TCP backends); state = reference pins + per-dialog progress + dialog table (dialog entries) + rotation cursor; non-trivial = history longer than two events",
 		Assume: []string{"no clock steps and no BYE answers / terminated NOTIFYs (C15 owns lifetime and early termination)", "client-transaction entries of the pin table are left out of the state key: they are consulted only for responses from unknown source addresses, which this alphabet does not produce"},
 		Run:    c04Run, Collapse: false,
 		Finalize: func(c *Ctx, m *Result) {
